@@ -539,6 +539,30 @@ theorem span_text_of_text (p : Pen) (s : List UInt8) (k n : Int) :
       specSpanLen (.text p s k) n = (en.bytes : Int) - st.bytes :=
   spanText_text_c07 p s k n
 
+/-- **… which is what lies between two counts from the start of the string.**  For `0 ≤ k`, `0 ≤ n`, scanning the
+    characters of `s` once: the text of the `n` columns from column `k` on is `s[st.bytes, en.bytes)` with `st` /
+    `en` the positions where C07's specification stops counting whole graphemes under the limits "`k` columns" /
+    "`k + n` columns" (the code resumes the second count at `st`; `Props.C07.count_resumable` makes that the same). -/
+theorem span_text_between_counts (p : Pen) (s : List UInt8) (k n : Int) (hk : 0 ≤ k) (hn : 0 ≤ n) :
+    ∃ cs t st en,
+      Props.C07.Scans (RB.Utf8.memOf s) (s.length + 1) none Tickit.Utf8.Pos.zero cs t ∧
+      st = (Tickit.Utf8.specRun (some ⟨none, -1, -1, k⟩) (Props.C07.graphemes cs) t Tickit.Utf8.Pos.zero).pos ∧
+      en = (Tickit.Utf8.specRun (some ⟨none, -1, -1, k + n⟩) (Props.C07.graphemes cs) t Tickit.Utf8.Pos.zero).pos ∧
+      st.bytes ≤ en.bytes ∧
+      specSpanBytes (.text p s k) n = (s.drop st.bytes).take (en.bytes - st.bytes) ∧
+      specSpanLen (.text p s k) n = (en.bytes : Int) - st.bytes :=
+  spanText_between_counts p s k n hk hn
+
+/-- Non-vacuity: `a`, combining acute, fullwidth `A`, `b`: the two columns from column 1 on are the wide character
+    (3 bytes); one column from column 1 on ends inside it and is empty; one column from column 2 on begins inside it
+    and takes it whole together with nothing else. -/
+example :
+    specSpanBytes (.text Pen.empty [0x61, 0xcc, 0x81, 0xef, 0xbc, 0xa1, 0x62] 1) 2 = [0xef, 0xbc, 0xa1] ∧
+    specSpanBytes (.text Pen.empty [0x61, 0xcc, 0x81, 0xef, 0xbc, 0xa1, 0x62] 1) 1 = [] ∧
+    specSpanBytes (.text Pen.empty [0x61, 0xcc, 0x81, 0xef, 0xbc, 0xa1, 0x62] 2) 1 = [0xef, 0xbc, 0xa1] ∧
+    specSpanLen (.text Pen.empty [0x61, 0xcc, 0x81, 0xef, 0xbc, 0xa1, 0x62] 0) 4 = 7 := by
+  decide +kernel
+
 /-- The other contents: nothing for skipped and erased pieces, the glyph of a line cell, the character of a
     character cell. -/
 theorem span_text_simple (p : Pen) (m : Nat) (cp n : Int) :
